@@ -1166,9 +1166,23 @@ package leveldb
 // C18: a DB opened read-only creates, renames, removes nothing and does not move CURRENT.
 //@ count storage.Storage.Create
 //@ count storage.Storage.Rename
+//@ ghost var gSwitching bool
 //@ func (*DB).recoverJournalRO
 //@   props C18
 //@   safety off
+// ("serves all previously written data including data still only in the journal": with two live journals the reader
+// is re-pointed at the second one; the reader's Reset hands back how it ended the first - io.EOF - and that is not a
+// failure of the recovery: nothing may abort between the switch and the first read of the next journal. F10.)
+//@   at entry
+//@     ghost gSwitching = false
+//@   at call (*Reader).Reset#*
+//@     ghost gSwitching = true
+//@   at before call (*Reader).Next#*
+//@     ghost gSwitching = false
+//@   loop 2
+//@     invariant [C18:no-journal-switch-pending] !gSwitching
+//@   at return
+//@     assert [C18:switching-to-the-next-journal-does-not-abort-the-recovery] !gSwitching
 //@   ensures [C18:read-only-recovery-mutates-nothing] calls("storage.Storage.Create") == old(calls("storage.Storage.Create")) && calls("storage.Storage.Remove") == old(calls("storage.Storage.Remove")) && calls("storage.Storage.Rename") == old(calls("storage.Storage.Rename")) && calls("storage.Storage.SetMeta") == old(calls("storage.Storage.SetMeta"))
 //@ func openDB
 //@   props C18
